@@ -161,13 +161,16 @@ def to_int(kind, text):
 
 def val_text(kind, text, convfmt="%.6g"):
     """the string form of a value of kind n nil / i integer / f float / b byte string / c character / s string (what
-    hawk_rtx_valtooocstrdup gives; floats go through CONVFMT)"""
+    hawk_rtx_valtooocstrdup gives; floats that are not whole numbers go through CONVFMT)"""
     if kind == "n":
         return ""
     if kind == "i":
         return str(int(text))
     if kind == "f":
-        return convfmt % float(text)
+        v = float(text)
+        # a float whose value is exactly an integer (and fits hawk_int_t) converts as if by %d, as POSIX requires
+        # (-0.0 gives 0); CONVFMT applies to the other numbers only
+        return str(int(v)) if (v == int(v) and abs(v) < 2 ** 63) else convfmt % v
     if kind == "c":
         return text[:1]
     return text
@@ -496,7 +499,7 @@ OFS_TYPED = [("n", ""), ("i", "7"), ("i", "0"), ("i", "-1"), ("i", "12"), ("f", 
              ("b", "-"), ("b", "::"), ("b", ""), ("c", "x"), ("c", ":"), ("c", " ")]
 FS_TYPED = [("n", ""), ("i", "1"), ("i", "7"), ("i", "11"), ("b", ":"), ("b", " "), ("b", "[:,]+"), ("b", ","), ("c", ":"), ("c", "b"), ("c", " ")]
 CONVFMTS = ["%.6g", "%.2g", "%.3f", "%.4g"]
-NUM_POOL = ["3.14159", "0.5", "2.25", "6.0", "10.125", "0.001"]
+NUM_POOL = ["3.14159", "0.5", "2.25", "6.0", "10.125", "0.001", "-0.0", "1000000.0"]
 
 
 def gen_typed(rng, var, convfmt):
